@@ -56,10 +56,18 @@ def gen_history(rng, profile: str, length: int) -> dict:
     ops = []
     lab = [0]
 
+    # several IDManager objects on the one database file (long-lived processes of a session, one at a time):
+    # nothing an object remembers from its own earlier calls may stand in for the database
+    procs = rng.choice([1, 1, 2, 2, 3]) if profile in ("small", "boundary", "collide", "mixed") and length >= 3 else 1
+
     def add(**o):
         o["n"] = lab[0]
         lab[0] += 1
         o.setdefault("dt", rng.choice(DTS))
+        if procs > 1 and o["op"] not in ("bulk", "collide"):
+            w = rng.randrange(procs)
+            if w:
+                o["who"] = w
         ops.append(o)
         return o["n"]
 
@@ -193,6 +201,20 @@ def structured_cases():
     # invalid ids
     yield h(1024, [{"op": "set", "id": 0, "d": "a", "dt": 0}, {"op": "set", "id": 2**32, "d": "a", "dt": 0}, {"op": "del", "id": 0, "dt": 0},
                    {"op": "get_info", "id": 2**32, "dt": 0}, {"op": "set", "id": 2**32 - 1, "d": "a", "dt": 0}, {"op": "get_info", "id": 2**32 - 1, "dt": 0}])
+    # two long-lived IDManager objects on one file: A fills the subspace and recycles once (so A has SEEN it full), B frees
+    # ids (del_id / cleanup / re-binding by set_id does not free), A asks for new descriptions: free ids exist, nothing may be displaced
+    w = lambda o, k=1: dict(o, who=k)
+    for su, names in (([1, 4], "abc"), ([0, 3], "ab"), ([255, 256], "a")):
+        fill = [g(x, su) for x in names]
+        yield h(1024, fill + [g("n1", su), w({"op": "del", "id": {"ref": len(names) - 1}, "dt": 1}), g("n2", su), g("n3", su),
+                              w({"op": "count", "sp": S8, "su": su, "dt": 0}), {"op": "get_all", "sp": S8, "su": su, "dt": 0}])
+        yield h(1024, fill + [g("n1", su), w({"op": "cleanup", "sp": S8, "su": su, "max": 0, "dt": 1}), g("n2", su), w(g("n3", su)), g("n4", su),
+                              w(g("n5", su), 2), g("n6", su)])
+        yield h(1024, [w(o, k % 2) for k, o in enumerate(fill)] + [w(g("n1", su)), g("n2", su), {"op": "del", "id": {"ref": 0}, "dt": 1},
+                                                                     w(g("n3", su)), g("n4", su), w({"op": "del", "id": {"ref": len(names) + 1}, "dt": 1}), g("n5", su)])
+    # the same on the large path (max_ids = 1 makes every subspace "large"): B empties the subspace after A met collisions
+    yield h(1, [{"op": "collide", "p": 1.0, "dt": 0}, g("a", [1, 3]), g("b", [1, 3]), g("c", [1, 3]), w({"op": "cleanup", "sp": S8, "su": [1, 3], "max": 0, "dt": 1}),
+                g("d", [1, 3]), w(g("e", [1, 3])), g("f", [1, 3])])
     # every space once, full subspace
     for sp in SPACES:
         yield h(1024, [g("a", [0, 256], sp=list(sp)), g("b", [0, 256], sp=list(sp)), g("a", [0, 256], sp=list(sp)),
@@ -299,7 +321,8 @@ def run(ctx: Ctx):
     ctx.rule = ("cases = whole operation histories (get/set/del/cleanup/get_all/count/get_info, clock advance per op in "
                 "{0, 1us, ~1s, 1h, negative}) over profiles small / boundary (subspace size = max_ids-1..+1) / collide (large path "
                 "with steered collisions) / bulk255, bulk16 (pre-filled 16-bit subspaces) / mixed (all 5 spaces, sizes 1..2^32-ish, "
-                "overlapping subspaces) + structured histories + int(size*frac) table. distinct = canonical JSON of the history; "
+                "overlapping subspaces), in 60 % of them the calls alternate at random between 2-3 IDManager objects on the one file, "
+                "+ structured histories + int(size*frac) table. distinct = canonical JSON of the history; "
                 "non-trivial = history with at least one get_id")
     run_corpus(ctx, PROP, check_case)
     budget = ctx.budget_s * (0.68 if ctx.quick else 0.85)
